@@ -237,6 +237,10 @@ def plan_C04(q, seed):
     lj = rand_job("WF", 16000 if q else 400000, weak=3, time_limit=25 if q else 300, lo=1 << 21, label="rand-WF-leakcheck-e2l")
     lj["engine"] = "e2l"
     jobs.append(lj)
+    # the same for allocations given up by try_unwrap / make_mut and for make_mut calls whose Clone fails
+    lc = rand_job("CONSUME", 12000 if q else 300000, weak=3, time_limit=25 if q else 300, lo=1 << 23, extra=["--consume-bias", "3"], label="rand-CONSUME-leakcheck-e2l")
+    lc["engine"] = "e2l"
+    jobs.append(lc)
     mj = e3(rand_job("WF", 100000, weak=3, objs=4, length=30, lo=1 << 22, label="rand-WF-leakcheck-e3l"), 35 if q else 600)
     mj["engine"] = "e3l"
     jobs.append(mj)
@@ -428,6 +432,8 @@ def plan_C16(q, seed):
         # itself created and dropped a Weak from the dead handle
         gen_job("deadclonepanic", "DEAD", 8000 if q else 150000, time_limit=20 if q else 300),
         gen_job("deadcloneafterweak", "DEAD", 8000 if q else 150000, time_limit=20 if q else 300),
+        # Clone::clone_from between two handles to the same destroyed peer is a cloning entry point too
+        gen_job("deadclonefrom", "DEAD", 8000 if q else 150000, time_limit=20 if q else 300),
         e2(gen_job("deadclone", "DEAD", 2000 if q else 40000, time_limit=20 if q else 200)),
         e2(gen_job("deaddrop", "DEAD", 2000 if q else 40000, time_limit=20 if q else 200)),
         {"kind": "miri-child", "engine": "e3", "count": 12 if q else 200, "label": "deadclone-e3", "args": [], "lo": 0, "hi": 0},
